@@ -392,8 +392,10 @@ class SE2(SO2):
         """
         if isinstance(S, (list, tuple)) and not argcheck.isvector(S, 3):
             return cls([tr.trexp2(s) for s in S])
-        else:
+        elif argcheck.isvector(S, 3) or argcheck.ismatrix(S, (3, 3)):
             return cls(tr.trexp2(S), check=False)
+        else:
+            raise ValueError('expecting se(2) as a 3-vector or 3x3 matrix')
 
     @staticmethod
     def isvalid(x, check=True):
